@@ -5,7 +5,7 @@
    specifications with literal numbers: Model/LifeSpec.v, Model/LifeCacheSpec.v.
    Times are virtual milliseconds, TTLs seconds; U32 = 2^32, U64 = 2^64, B63 = 2^63. *)
 From Coq Require Import List NArith Bool.
-From Mdns Require Import Res Bytes Rec Life LifeSpec LifeCache LifeCacheSpec LifeProofs LifeCacheProofs.
+From Mdns Require Import Res Bytes Rec Life LifeSpec LifeCache LifeCacheSpec LifeProofs LifeCacheProofs LifeSimInst.
 Import ListNotations.
 Open Scope N_scope.
 
@@ -158,6 +158,21 @@ Theorem C11_flush_expires_in_one_second : forall inc now (e : tentry),
   flush_entry inc now e = mkC (c_id e) (mkT (t_ttl (c_t e)) (t_created (c_t e)) (now + 1000) (t_refresh (c_t e))).
 Proof. exact flush_entry_flushed. Qed.
 
+(* ---- daemon level: the cache / refresh / evict layer over whole histories ---- *)
+
+(* For EVERY history of daemon loop iterations (received records, (re)transmissions, any times
+   below 2^63, wire TTLs below 2^32): the model of the code (model_run: Model/LifeCache.v with
+   the operations of Model/Life.v) and the property text with literal numbers (spec_run: the
+   same cache layer over the abstract record state of Model/LifeSpec.v - marks 80/85/90/95 %,
+   expiry T+1000*ttl, one-second flush rule) run without panic and make the same observations in
+   every iteration: the same queries (question lists; answer sections are C10's subject), the
+   same ServiceRemoved and AddressesRemoved reports.  The extracted spec_run is the monitor
+   applied to the traces of the real daemon. *)
+Theorem C11_daemon_level_refinement : forall cfg steps,
+  Forall step_ok steps ->
+  exists obs spec, model_run cfg steps = Ok obs /\ spec_run cfg steps = Ok spec /\ Forall2 io_eq obs spec.
+Proof. exact sim_refines. Qed.
+
 (* ---- non-vacuity ---- *)
 
 (* a record received at 1 000 000 with TTL 120: a wake-up schedule that skips the 85 % mark
@@ -182,7 +197,29 @@ Example C11_example_flush :
                 mkC (a 3 3) (mkT 120 1000000 1120000 1096000) ], [1006000], true)).
 Proof. vm_compute. reflexivity. Qed.
 
+(* a browse of "t." and a resolver for "h.": a PTR (TTL 10) and two addresses arrive, the second
+   address with the cache-flush bit 2 s after the first; iterations at the interesting times *)
+Example C11_example_history :
+  let ptr := (mkId [116;46] TY_PTR 1 false (RPtr [105;46]) 2, 10) in
+  let a1 := (mkId [104;46] TY_A 1 true (RAddr [10;0;0;1]) 2, 10) in
+  let a2 := (mkId [104;46] TY_A 1 true (RAddr [10;0;0;2]) 2, 10) in
+  let st t recs := mkStep t O O recs in
+  model_run (mkCfg (Some [116;46]) (Some [104;46]))
+    [ st 1000000 [ptr; a1]; st 1002000 [a2]; st 1003000 []; st 1008000 []; st 1008500 [];
+      st 1009000 []; st 1009500 []; st 1010000 []; st 1012000 [] ]
+  = Ok [ mkIO [] [] [];
+         mkIO [] [] [];
+         mkIO [] [] [fst a1];                                              (* flushed: +1 s *)
+         mkIO [mkQD [([116;46], TY_PTR)] []] [] [];                         (* PTR 80 % *)
+         mkIO [mkQD [([116;46], TY_PTR)] []] [] [];                         (* 85 % *)
+         mkIO [mkQD [([116;46], TY_PTR)] []] [] [];                         (* 90 % *)
+         mkIO [mkQD [([116;46], TY_PTR)] []] [] [];                         (* 95 % *)
+         mkIO [mkQD [([104;46], TY_A)] []] [[105;46]] [];                   (* PTR expires; a2 at 80 % *)
+         mkIO [] [] [fst a2] ].
+Proof. vm_compute. reflexivity. Qed.
+
 Print Assumptions C11_lifetime.
+Print Assumptions C11_daemon_level_refinement.
 Print Assumptions C11_lifetime_wire.
 Print Assumptions C11_lifetime_frame.
 Print Assumptions C11_refresh_marks.
